@@ -13,9 +13,14 @@ Keys == <<"a", "b", "c", "d", "e", "f">>
 Num == "num"  BadV == "bad"  MixV == "mix"
 BadVal(i) == CASE i % 3 = 1 -> "zz" \o ToString(i) [] i % 3 = 2 -> "(1 / 0)" [] OTHER -> "(1 + \"s\")"
 Val(mode, i) == CASE mode = "num" -> ToString(i) [] mode = "bad" -> BadVal(i) [] mode = "mix" -> IF i % 2 = 0 THEN BadVal(i) ELSE ToString(i)
-RECURSIVE ObjSrc(_, _)
-ObjSrc(n, mode) == IF n = 0 THEN "" ELSE (IF n = 1 THEN "" ELSE ObjSrc(n - 1, mode) \o ", ") \o Keys[n] \o ": " \o Val(mode, n)
-Obj(n, mode) == "{" \o ObjSrc(n, mode) \o "}"
+\* other key alphabets: keys that differ in letter case only, keys that are prefixes of each other, digits and underscores
+KeysOf(ks) == CASE ks = 1 -> Keys [] ks = 2 -> <<"name", "Name", "NAME", "id", "ID", "Id">> [] ks = 3 -> <<"a", "ab", "abc", "B", "b", "Ab">>
+                [] ks = 4 -> <<"k1", "k10", "k2", "K1", "_k", "k_">>
+RECURSIVE ObjSrcK(_, _, _)
+ObjSrcK(n, mode, ks) == IF n = 0 THEN "" ELSE (IF n = 1 THEN "" ELSE ObjSrcK(n - 1, mode, ks) \o ", ") \o KeysOf(ks)[n] \o ": " \o Val(mode, n)
+ObjK(n, mode, ks) == "{" \o ObjSrcK(n, mode, ks) \o "}"
+Obj(n, mode) == ObjK(n, mode, 1)
+ObjDataK(n, ks) == [t |-> "obj", v |-> [i \in 1..n |-> [k |-> KeysOf(ks)[i], v |-> [t |-> "int", b |-> "z", o |-> i]]]]
 IntV(i) == [t |-> "int", b |-> "z", o |-> i]
 ObjData(n) == [t |-> "obj", v |-> [i \in 1..n |-> [k |-> Keys[i], v |-> IntV(i)]]]
 Render(src, data, gdata, tag) == [kind |-> "render", src |-> src, data |-> data, gdata |-> gdata, tags |-> <<"c14", tag>>]
@@ -27,6 +32,10 @@ RenderCases ==
      {Render("{{ " \o Obj(n, Num) \o " }}", <<>>, <<>>, "print-object") : n \in 2..6}
 \cup {Render("@dump(" \o Obj(n, Num) \o ")", <<>>, <<>>, "dump-object") : n \in 2..6}
 \cup {Render("{{ o }}|@dump(o)|{{ [o, o] }}", <<[k |-> "o", v |-> ObjData(n)]>>, <<>>, "data-object") : n \in 2..6}
+\cup {Render("{{ " \o ObjK(n, Num, ks) \o " }}|@dump(" \o ObjK(n, Num, ks) \o ")", <<>>, <<>>, "print-object-keys") : n \in 2..6, ks \in 2..4}
+\cup {Render("{{ o }}|@dump(o)|{{ [o, o] }}", <<[k |-> "o", v |-> ObjDataK(n, ks)]>>, <<>>, "data-object-keys") : n \in 2..6, ks \in 2..4}
+\cup {Render("{{ x = " \o ObjK(n, Num, ks) \o " }}{{ x }}@each(o in [x, x]){{ o }};@end", <<>>, <<>>, "assigned-object-keys") : n \in 2..6, ks \in 2..4}
+\cup {Render("{{ " \o ObjK(n, BadV, ks) \o " }}", <<>>, <<>>, "failing-entries-keys") : n \in 2..6, ks \in 2..4}
 \cup {Render("{{ " \o Obj(n, BadV) \o " }}", <<>>, <<>>, "failing-entries") : n \in 2..6}
 \cup {Render("{{ " \o Obj(n, MixV) \o " }}", <<>>, <<>>, "failing-entries") : n \in 4..6}
 \cup {Render("{{ x = " \o Obj(n, Num) \o " }}{{ x }}{{ x.a }}", <<>>, <<>>, "assigned-object") : n \in 2..4}
